@@ -207,7 +207,7 @@ func (in *Interp) havocValue(t types.Type, name string, opt *HavocOpts, depth in
 		}
 		return &ArrV{e}
 	case *types.Pointer:
-		if in.param("havocnonnil", 0) == 0 {
+		if in.param("havocnonnil", 0) == 0 && depth <= in.param("havocnildepth", 99) {
 			nilv := in.freshVar(name+".nil", BoolSort)
 			if in.branch(nilv) {
 				return PtrV{}
@@ -226,6 +226,25 @@ func (in *Interp) havocValue(t types.Type, name string, opt *HavocOpts, depth in
 			e[i] = in.havocValue(u.Elem(), fmt.Sprintf("%s[%d]", name, i), opt, depth+1)
 		}
 		return in.newSlice(u.Elem(), e, n)
+	}
+	if u, ok := t.Underlying().(*types.Map); ok && isString(u.Key()) {
+		// nil, or any subset of the party universe {"a","b","c"} as keys with arbitrary values
+		if in.param("havocnonnil", 0) == 0 {
+			nilv := in.freshVar(name+".nil", BoolSort)
+			if in.branch(nilv) {
+				return MapV{}
+			}
+		}
+		in.cellSeq++
+		m := &MapObj{ID: in.cellSeq}
+		for _, k := range []string{"a", "b", "c"} {
+			if in.branch(in.freshVar(name+".has."+k, BoolSort)) {
+				m.Keys = append(m.Keys, concStr(k))
+				m.Vals = append(m.Vals, in.havocValue(u.Elem(), name+"["+k+"]", opt, depth+1))
+				m.Del = append(m.Del, false)
+			}
+		}
+		return MapV{m}
 	}
 	if _, ok := t.Underlying().(*types.Interface); ok {
 		// a curve.Curve field is never decoded: it is the (unexported) group a proof/message was pre-shaped with by Empty(group)
